@@ -597,6 +597,20 @@ def emit_dispatch(all_info: dict) -> None:
         p.write_text(text)
 
 
+def regenerate_routes() -> dict:
+    """`Gen/Routes.lean`: routing tables / clamp splits extracted from the trainers' `forward` methods"""
+    import sites
+    try:
+        text, info = sites.extract_routes(REPO)
+    except sites.SiteError as e:
+        raise TranslateError(e.where, str(e)) from e
+    p = GEN / "Routes.lean"
+    changed = not p.exists() or p.read_text() != text
+    if changed:
+        p.write_text(text)
+    return {"defs": info, "rewritten": changed}
+
+
 def regenerate(mods: list[str] | None = None) -> dict:
     """Regenerates ALL modules of translate_spec (the dispatcher imports every one); returns the
     info of the requested ones."""
@@ -605,9 +619,16 @@ def regenerate(mods: list[str] | None = None) -> dict:
     for m in translate_spec.SPEC:
         out[m] = translate_module(m, translate_spec.SPEC[m])
     emit_dispatch(out)
-    (GEN / "MANIFEST.json").write_text(json.dumps(
-        {m: {f: d["source_sha"] for f, d in o["functions"].items()} for m, o in out.items()}, indent=1))
-    return {m: {"functions": {f: d["source_sha"] for f, d in out[m]["functions"].items()}, "rewritten": out[m]["rewritten"]}
+    routes = regenerate_routes()
+    man = {m: {f: d["source_sha"] for f, d in o["functions"].items()} for m, o in out.items()}
+    man["Routes"] = {k: v["sha"] for k, v in routes["defs"].items()}
+    (GEN / "MANIFEST.json").write_text(json.dumps(man, indent=1))
+    if mods and "Routes" in mods:
+        mods = [m for m in mods if m != "Routes"]
+        extra = {"Routes": {"functions": man["Routes"], "rewritten": routes["rewritten"]}}
+    else:
+        extra = {}
+    return extra | {m: {"functions": {f: d["source_sha"] for f, d in out[m]["functions"].items()}, "rewritten": out[m]["rewritten"]}
             for m in (mods or out)}
 
 
